@@ -75,6 +75,14 @@ def run_translators(res):
             if old != text:
                 with open(path, "w") as fh:
                     fh.write(text)
+                # if this is byte for byte the text that was last compiled successfully, give it back its old
+                # time stamp so that make does not re-check the (unchanged) proofs after a change was undone
+                side = os.path.join(BUILD, "gen_built", rel.replace("/", "__"))
+                if os.path.exists(side) and os.path.exists(side + ".mtime") and open(side).read() == text \
+                        and os.path.exists(path + "o"):
+                    t = float(open(side + ".mtime").read())
+                    if os.path.getmtime(path + "o") >= t:
+                        os.utime(path, (t, t))
 
 
 def build(targets=None):
@@ -101,6 +109,18 @@ def build(targets=None):
                 res.ok_files.add(v)
             else:
                 res.failed[v] = _error_for(res.log, v)
+        # remember the generated sources that are compiled now (see run_translators)
+        os.makedirs(os.path.join(BUILD, "gen_built"), exist_ok=True)
+        for v in vfiles:
+            if v.startswith("Gen/") and v in res.ok_files:
+                side = os.path.join(BUILD, "gen_built", v.replace("/", "__"))
+                src = os.path.join(COQ, v)
+                txt = open(src).read()
+                if not os.path.exists(side) or open(side).read() != txt:
+                    with open(side, "w") as fh:
+                        fh.write(txt)
+                    with open(side + ".mtime", "w") as fh:
+                        fh.write(repr(os.path.getmtime(src)))
         # Print Assumptions output is captured in the make log on rebuild; keep a cache per file
         _collect_assumptions(res)
         # OCaml driver
@@ -139,7 +159,10 @@ def _collect_assumptions(res):
         if v.startswith("Props/"):
             a = os.path.join(COQ, v[:-2] + ".assum")
             if (not os.path.exists(a)) or os.path.getmtime(a) < os.path.getmtime(os.path.join(COQ, v + "o")):
-                p = subprocess.run(["timeout", "600", "coqc", "-Q", ".", "GV", "-w", "none", v, "-o", "/dev/null"], cwd=COQ,
+                od = os.path.join(BUILD, "assum")
+                os.makedirs(od, exist_ok=True)
+                p = subprocess.run(["timeout", "600", "coqc", "-Q", ".", "GV", "-w", "none", v, "-o",
+                                    os.path.join(od, os.path.basename(v) + "o")], cwd=COQ,
                                    stdout=subprocess.PIPE, stderr=subprocess.STDOUT, text=True)
                 with open(a, "w") as fh:
                     fh.write(p.stdout)
